@@ -561,6 +561,30 @@ def schema_bounded_accumulator(prog, o, a, b):
     return None
 
 
+def end_char(prog, body, c):
+    """c is an Option<char> taken from one end of a str: returns ("front"|"back", str term)
+    for next / next_back / last on chars() with rev() folded in; None otherwise."""
+    side = None
+    src = None
+    if c[0] == "callm" and c[1] in ("Iterator::next", "DoubleEndedIterator::next_back"):
+        side = "front" if c[1] == "Iterator::next" else "back"
+        src = resolve_iter(prog, body, c[2][0], c[3][1])
+    elif c[0] == "call" and c[1] == "Iterator::last" and len(c[2]) == 1:
+        side = "back"
+        src = c[2][0]
+    if src is None:
+        return None
+    for _ in range(4):
+        if src[0] == "call" and src[1] == "Iterator::rev" and len(src[2]) == 1:
+            side = "back" if side == "front" else "front"
+            src = src[2][0]
+        else:
+            break
+    if src[0] == "call" and src[1] == "str::chars" and len(src[2]) == 1:
+        return (side, src[2][0])
+    return None
+
+
 def char_item(prog, body, t):
     r = item_source(prog, body, t)
     if r is None:
@@ -800,6 +824,10 @@ def boundary_of(prog, body, x, base, facts, depth=0):
         # prefix of base
         if y[0] == "call" and y[1] in ("str::trim_end_matches", "str::trim_end") and y[2][0] == base:
             return "len(prefix %s)" % y[1]
+        for atom, pol in facts:
+            if pol and atom[0] == "b" and atom[1][0] == "call" and atom[1][1] == "str::starts_with" \
+                    and atom[1][2] == (base, y):
+                return "len of a prefix: dominated by starts_with(base, p)"
     if x[0] == "bin" and x[1] == "Sub":
         a, b = x[2], x[3]
         if a[0] == "call" and a[1] in ("str::len",) and a[2][0] == base and b[0] == "call" and b[1] == "str::len":
@@ -1146,6 +1174,9 @@ def schema_misc_call(prog, o):
                 if pol and atom[0] == "b" and atom[1][0] == "call" and atom[1][1] == "str::starts_with" \
                         and atom[1][2][0] == x and atom[1][2][1] == p:
                     return ("GUARD-PREFIX", "dominated by starts_with(x, p): p.len() is a char boundary of x")
+        why = boundary_of(prog, body, mid, x, facts)
+        if why:
+            return ("S1-S4 boundary", "split point: %s" % why)
     if k == "call:String::truncate":
         facts = facts_at(prog, body, o.block)
         n = o.terms[1]
